@@ -404,6 +404,33 @@ class HostExec(Exec):
     self.tids, self.dims = tids, [lift(d) for d in dims]
     st = self.st
     g_launch = self.guard_now(fr)
+    if info.key in getattr(self, "launch_contracts", {}):
+      # modular launch: the kernel enters through its thread contract (proved separately at
+      # kernel level): requires must hold for every thread of the grid in the current state,
+      # the arrays it may modify become arbitrary, and ensures holds for every thread afterwards
+      from .contracts import eval_contract_expr
+
+      lc = self.launch_contracts[info.key]
+      try:
+        kf.env.update(lc.get("ghosts", {}))
+        for i, text in enumerate(lc.get("requires", [])):
+          goal = tobool(eval_contract_expr(self, kf, text, {}))
+          self.side.append((f"{fr.info.key}@launch:{info.qualname}#requires.{i}", [zb(g_launch), zb(rng)], zb(goal)))
+        for name in lc.get("modifies", []):
+          ref = kf.env[name]
+          prev = st.arrs[ref.aid]
+          self.havoc_array(ref)
+          hv = st.arrs[ref.aid]
+          if g_launch is not True:
+            st.arrs[ref.aid] = lambda idx, prev=prev, hv=hv, g=g_launch: z3.If(g, hv(idx), prev(idx))
+        saved0 = st.arrs0
+        for text in lc.get("ensures", []):
+          post = tobool(eval_contract_expr(self, kf, text, {}))
+          self.assume(z3.ForAll(tids, z3.Implies(z3.And(zb(g_launch), zb(rng)), zb(post))))
+      finally:
+        self.tids, self.dims = saved_tids, saved_dims
+      self.launches.append(LaunchRec(info.key, lineno, g_launch, dims, dict(zip(params, actuals)), list(lc.get("modifies", [])), [], ["modular launch (thread contract)"]))
+      return
     outer_bound = list(st.bound)
     env_k0 = dict(kf.env)
     dirty = set()
@@ -491,7 +518,7 @@ def run_host(key, args=None, specialise=None, skip_calls=(), invariants=None):
 class HostRun:
   """symbolic execution of a host function + contract helpers over the final Data/Model state"""
 
-  def __init__(self, key, args=None, skip_calls=(), invariants=None, pre=(), setup=None, host_contracts=None):
+  def __init__(self, key, args=None, skip_calls=(), invariants=None, pre=(), setup=None, host_contracts=None, launch_contracts=None):
     from .contracts import Obligation
 
     self.key = key
@@ -502,6 +529,7 @@ class HostRun:
     ex.opaque_calls = []
     ex.skip_calls = set(skip_calls)
     ex.host_contracts = dict(host_contracts or {})
+    ex.launch_contracts = dict(launch_contracts or {})
     if invariants:
       ex.invariants.update(invariants)
     self.fr = Frame(self.info)
@@ -570,6 +598,13 @@ class HostRun:
     from .contracts import Obligation
 
     return [
-      Obligation(prefix + n, list(self.ex.assumes) + [zb(h) for h in hyp if h is not True], zb(goal), func=self.key, kind="side")
-      for n, hyp, goal in self.ex.side
+      Obligation(
+        prefix + n,
+        (list(self.ex.assumes[: rest[0]]) if rest else list(self.ex.assumes)) + [zb(h) for h in hyp if h is not True],
+        zb(goal),
+        func=self.key,
+        kind="side",
+        meta={"function": self.key, "source_hash": self.info.source_hash},
+      )
+      for n, hyp, goal, *rest in self.ex.side
     ]
